@@ -120,6 +120,10 @@ Section Resume.
         else recv_acks size rest mstep
     end.
 
+  (* pipelineRecvHashAck as called: with size = 0 no HASH line is sent, so no ack is awaited *)
+  Definition recv_hash_acks (size : Z) (acks : list ack) : sres :=
+    if (size =? 0)%Z then SDone 0%Z else recv_acks size acks 0%Z.
+
   (* ---- one file, both ends ------------------------------------------------------- *)
   Record outcome := mkOut {
     o_hashes : list hmsg;     (* HASH lines sent (incl. Over) *)
@@ -157,7 +161,7 @@ Section Resume.
       | Some hs =>
         match recv_hashes dst0 hs r_init with
         | ROver st =>
-          match recv_acks (Z.of_nat size) (r_acks st) 0%Z with
+          match recv_hash_acks (Z.of_nat size) (r_acks st) with
           | SDone ms =>
             let mr := Z.to_nat (r_mstep st) in
             let f := f_truncate (f_seek (mkFile dst0 (r_off st)) mr) mr in   (* receiver *)
